@@ -602,7 +602,8 @@ func c31Build(rg *vkit.Rand, b c31Base, st *c31State) c31Req {
 // c31Canon is a curated list of well-formed S3 operations against the seeded
 // state, so that every storage method is actually reached under every program
 // (the combinatorial generator mostly produces odd requests).
-func c31Canon(st *c31State) []c31Req {
+func c31Canon(st *c31State, nonce int) []c31Req {
+	n := fmt.Sprint(nonce)
 	v0, v1 := "null", "null"
 	if len(st.BetaVersions) >= 2 {
 		v0, v1 = st.BetaVersions[0], st.BetaVersions[1]
@@ -657,11 +658,11 @@ func c31Canon(st *c31State) []c31Req {
 		mk("GET", "website/k", "alpha."+c31Web, "/docs", "", nil, "", nil),
 		mk("HEAD", "website/k", "alpha."+c31Web, "/k", "", nil, "", nil),
 		mk("HEAD", "website/k", "alpha."+c31Web, "/missing", "", nil, "", nil),
-		mk("PUT", "/b/k", api, "/alpha/newkey", "", map[string]string{"x-amz-tagging": "a=b", "x-amz-meta-x": "y"}, "fresh-object", nil),
+		mk("PUT", "/b/k", api, "/alpha/newkey", "", map[string]string{"x-amz-tagging": "a=b", "x-amz-meta-x": "y"}, "fresh-object-"+n, nil),
 		mk("PUT", "vhost/k", "alpha."+api, "/vkey", "", nil, "fresh-object-2", nil),
-		mk("PUT", "/b/k", api, "/alpha/k", "append", nil, "-appended", nil),
-		mk("PUT", "/b/k", api, "/alpha/k", "tagging", nil, tagBody, nil),
-		mk("PUT", "/b/k", api, "/beta/k", "tagging&versionId="+v0, nil, tagBody, nil),
+		mk("PUT", "/b/k", api, "/alpha/k", "append", nil, "-appended-"+n, nil),
+		mk("PUT", "/b/k", api, "/alpha/k", "tagging", nil, strings.Replace(tagBody, "red", "red-"+n, 1), nil),
+		mk("PUT", "/b/k", api, "/beta/k", "tagging&versionId="+v0, nil, strings.Replace(tagBody, "red", "blue-"+n, 1), nil),
 		mk("DELETE", "/b/k", api, "/alpha/tagged", "tagging", nil, "", nil),
 		mk("DELETE", "/b/k", api, "/beta/k", "tagging&versionId="+v0, nil, "", nil),
 		mk("PUT", "/b/k", api, "/alpha/copy1", "", map[string]string{"x-amz-copy-source": "/alpha/k2"}, "", nil),
@@ -675,6 +676,7 @@ func c31Canon(st *c31State) []c31Req {
 		mk("POST", "/b/k", api, "/beta/k", "uploadId="+ub, nil, "<CompleteMultipartUpload><Part><PartNumber>1</PartNumber></Part><Part><PartNumber>2</PartNumber></Part></CompleteMultipartUpload>", nil),
 		mk("DELETE", "/b/k", api, "/alpha/k", "uploadId="+ua, nil, "", nil),
 		mk("POST", "/b", api, "/alpha", "delete", nil, "<Delete><Object><Key>zeta</Key></Object><Object><Key>k2x</Key></Object><Object><Key>tagged</Key></Object><Object><Key>k/sub/x</Key></Object></Delete>", []string{"zeta", "k2x", "tagged", "k/sub/x"}),
+		mk("POST", "/b", api, "/alpha", "delete", nil, "<Delete><Quiet>true</Quiet><Object><Key>k2</Key></Object><Object><Key>err.html</Key></Object><Object><Key>tagged</Key></Object></Delete>", []string{"k2", "err.html", "tagged"}),
 		mk("POST", "/b", api, "/beta", "delete", nil, "<Delete><Object><Key>k2</Key></Object><Object><Key>k</Key><VersionId>"+v0+"</VersionId></Object></Delete>", []string{"k2", "k"}),
 		mk("DELETE", "/b/k", api, "/alpha/index.html", "", nil, "", nil),
 		mk("DELETE", "/b/k", api, "/beta/k", "versionId="+v1, nil, "", nil),
@@ -1122,7 +1124,7 @@ func c31RunMode(r *vkit.Run, rng *vkit.Rand, plan c31Plan, onlySeg, onlyIdx int)
 			}
 			var rq c31Req
 			if b.Method == "CANON" {
-				cn := c31Canon(st)
+				cn := c31Canon(st, seg)
 				rq = cn[b.canonIdx%len(cn)]
 				rq.Bucket = ""
 			} else {
@@ -1196,7 +1198,7 @@ func c31Plans(r *vkit.Run, rng *vkit.Rand) []c31Plan {
 		}
 		vkit.Shuffle(rg, bases)
 		// the curated operations: in order, one block per few segments (each block starts on freshly seeded state)
-		nCanon := len(c31Canon(&c31State{}))
+		nCanon := len(c31Canon(&c31State{}, 0))
 		var withCanon []c31Base
 		for i, b := range bases {
 			if i%(4*c31SegmentLen) == 0 {
